@@ -351,3 +351,86 @@ def resume_from_any_turn_yields_the_remainder(n: int, F0: int, F1: int, F2: int,
         if seq2[i] != start + i:
             return False
     return True
+
+
+# ---------------------------------------------------------------------------
+# (c) client side of resumption: a session positioned by seek_to_token sends exactly the token pair of the blob
+# ---------------------------------------------------------------------------
+
+import pyarrow as _pa  # noqa: E402
+
+from vgi_rpc.metadata import CALL_STATE_KEY  # noqa: E402
+
+
+class _PaDict:
+    """pa.KeyValueMetadata as a plain mapping (the token bytes stay symbolic)."""
+
+    @staticmethod
+    def KeyValueMetadata(d):  # type: ignore[no-untyped-def]
+        return dict(d)
+
+    def __getattr__(self, name):  # type: ignore[no-untyped-def]
+        raise HarnessModelError("pa." + name + " not modelled")
+
+
+_resume_token = reglobalize(cl.HttpStreamSession._resume_token, _encode_resume_token=_enc)
+_seek = reglobalize(cl.HttpStreamSession.seek_to_token, _decode_resume_token=_dec)
+_token_md = reglobalize(cl.HttpStreamSession._token_metadata, pa=_PaDict())
+_CSCHEMA = _pa.schema([_pa.field("v", _pa.int64())])
+
+
+def _session(state, call, pending=None, finished=False):  # type: ignore[no-untyped-def]
+    return cl.HttpStreamSession(None, "http://h/p", "m", state, _CSCHEMA, call_state_bytes=call, pending_batches=pending, finished=finished)  # type: ignore[arg-type]
+
+
+def _replay_seek(args: dict) -> str | None:
+    """Un-stubbed methods (real struct, real pa.KeyValueMetadata) on the concrete values."""
+    a = _session(args["s_a"], None if args["a_none"] else args["c_a"])
+    tok = a._resume_token()
+    b = _session(args["s_b"] if args["b_has_state"] else None, None if args["b_none"] else args["c_b"], pending=[object()] if args["b_pending"] else None,
+                 finished=args["b_finished"])
+    b.seek_to_token(tok)
+    want_call = (None if args["a_none"] else args["c_a"]) or None
+    if b._state_bytes != args["s_a"] or b._call_state_bytes != want_call:
+        return (f"session holding call token {b._call_state_bytes!r} after seek_to_token(resume token of a stream with cursor {args['s_a']!r}, "
+                f"call token {want_call!r}): the next request would carry cursor {b._state_bytes!r} with call token {b._call_state_bytes!r}")
+    md = dict(b._token_metadata(b._state_bytes))
+    if md.get(STATE_KEY) != args["s_a"] or md.get(CALL_STATE_KEY) != want_call:
+        return f"request metadata after seek: {md!r}"
+    if b._pending_batches or b._finished:
+        return "seek_to_token left preloaded batches / the finished flag in place"
+    return None
+
+
+@cond(q=40, t=200, stubs=["struct := little-endian field model", "pa.KeyValueMetadata := dict"],
+      encoded=[cl.HttpStreamSession.seek_to_token, cl.HttpStreamSession._resume_token, cl.HttpStreamSession._token_metadata],
+      bound="cursor/call tokens of both sessions any byte strings <= %d; target session with/without own cursor, own call token, preloaded batch, finished flag" % pick(3, 5),
+      replay=_replay_seek, signature=lambda a, c: "C11:seek-to-token:wrong-token-pair")
+def seek_positions_any_session_exactly_at_the_token(s_a: bytes, c_a: bytes, a_none: bool, s_b: bytes, c_b: bytes, b_none: bool,
+                                                    b_has_state: bool, b_pending: bool, b_finished: bool) -> bool:
+    """
+    pre: len(s_a) <= _SL and len(c_a) <= _SL and len(s_b) <= _SL and len(c_b) <= _SL
+    post: _
+    """
+    origin = _session(s_a, None if a_none else c_a)
+    target = _session(s_b if b_has_state else None, None if b_none else c_b, pending=[object()] if b_pending else None, finished=b_finished)
+    try:
+        tok = _resume_token(origin)
+        _seek(target, tok)
+        md = _token_md(target, target._state_bytes)
+        again = _resume_token(target)
+    except Exception:  # noqa: BLE001
+        return False
+    want_call = None if (a_none or len(c_a) == 0) else c_a
+    # whatever the target session held before (its own /init's tokens, preloaded batches), it now stands exactly where
+    # the blob says: the next request carries the blob's cursor AND the blob's call token — the serving node may be cold
+    if target._state_bytes != s_a or target._call_state_bytes != want_call:
+        return False
+    if target._pending_batches or target._finished:
+        return False
+    if md.get(STATE_KEY) != s_a or md.get(CALL_STATE_KEY) != want_call or len(md) != (1 if want_call is None else 2):
+        return False
+    return again == tok
+
+
+_SL = pick(3, 5)
